@@ -311,10 +311,12 @@ def build(ctx):
                     bounds={"modes": n, "measured": m, "peaks": 1})
     nf, D = 3, 2
     for pure in (True, False):
-        subsets = [(0,), (2,), (0, 1), (1, 0), (2, 0), (1, 2)] if not ctx.thorough else \
+        subsets = [(0,), (2,), (0, 1), (1, 0), (2, 0), (1, 2), (2, 0, 1), (1, 2, 0)] if not ctx.thorough else \
             [s for r in (1, 2, 3) for s in itertools.permutations(range(nf), r)]
         for modes in subsets:
             for index in range(D ** len(modes)):
+                if not ctx.thorough and len(modes) == 3 and index not in (1, 3, 6):
+                    continue        # outcomes that distinguish the three modes
                 ctx.add("fock.measure_fock%s.%s.outcome%d" % (list(modes), "pure" if pure else "mixed", index), h_fock_measure,
                         {"modes": list(modes), "n": nf, "D": D, "pure": pure, "index": index}, modules=C.fock_modules,
                         functions=["Circuit.measure_fock", "fockbackend.ops.partial_trace", "fockbackend.ops.diagonal",
